@@ -70,7 +70,18 @@ class Tmatrix(ScatteringTheory):
     # FIXME why is S (scatterer, pos, ...) but fields are (pos, scatterer, ...)?
     def raw_scat_matrs(self, scatterer, pos, medium_wavevec, medium_index):
         args = self._parse_args(scatterer, pos, medium_wavevec, medium_index)
-        s = self._run_tmat(args)
+        s_lab = self._run_tmat(args)
+        # The Fortran code returns the amplitude matrix in the laboratory
+        # frame, (E_theta, E_phi) = S_lab (E_x, E_y). HoloPy's convention
+        # (see mieangfuncs.calc_scat_field) takes the incident field as
+        # components (parallel, perpendicular) to the scattering plane and
+        # returns (E_parallel, E_perpendicular) = (E_theta, -E_phi).
+        phi = pos[2]
+        to_lab = np.array([[np.cos(phi), np.sin(phi)],
+                           [np.sin(phi), -np.cos(phi)]])
+        to_lab = np.moveaxis(to_lab, -1, 0)
+        s = np.matmul(s_lab, to_lab)
+        s[:, 1, :] *= -1
         return s
 
     def _parse_args(self, scatterer, pos, medium_wavevec, medium_index):
@@ -129,7 +140,7 @@ class Tmatrix(ScatteringTheory):
         s11, s12, s21, s22 = ampld(*args)
         for s in [s11, s12, s21, s22]:
             s *= (-2j*np.pi/med_wavelen)
-        scat_matr = np.array([[s11, s12], [s21, s22]]).transpose()
+        scat_matr = np.moveaxis(np.array([[s11, s12], [s21, s22]]), -1, 0)
         return scat_matr
 
     def raw_fields(self, pos, scatterer, medium_wavevec, medium_index,
@@ -153,10 +164,7 @@ class Tmatrix(ScatteringTheory):
 
         for i, point in enumerate(pos.T):
             kr, theta, phi = point
-            # TODO: figure out why postfactor is needed -- it is not used in dda.py
-            postfactor = np.array([[np.cos(phi),np.sin(phi)],
-                                   [-np.sin(phi),np.cos(phi)]])
             escat_sph = mieangfuncs.calc_scat_field(kr, phi,
-                                    np.dot(scat_matr[i],postfactor), [1,0])
+                                                    scat_matr[i], [1, 0])
             fields[i] = mieangfuncs.fieldstocart(escat_sph, theta, phi)
         return fields.T
